@@ -8,6 +8,7 @@ import (
 	"context"
 	"fmt"
 	"io"
+	"io/fs"
 	"net"
 	"os"
 	"syscall"
@@ -75,6 +76,7 @@ type C1 struct {
 	Endless         bool   // oversize: after the scripted bytes the sender never stops
 	Reconnect       int    // (follow-up call, network clients) before this call: 1 = Connect again without Close, 2 = Close then Connect
 	ConfOneFunc     int    // network clients built by the protocol constructors: 1 = only ParseResponseFunc given in the config (the protocol's own), 2 = only AsProtocolErrorFunc
+	ValueHooks      bool   // the hooks are a value type installed by value (zero value)
 	DeadlinePort    bool   // serial port without Flush but with SetReadDeadline
 	NilHooksOption  bool   // serial client built with WithSerialHooks(nil) when no hooks are wanted
 	WrappedTimeouts bool   // network transports report read timeouts as a *net.OpError wrapping the sentinel, as real sockets do
@@ -355,12 +357,28 @@ func RunC1(rc *RunCtx, sc *C1) *C1Outcome {
 		cl.WDeadlineErr = fmt.Errorf("set write deadline: %w", sc.ioErr()) // what a connection that is already gone answers
 	}
 	if sc.WrappedTimeouts {
-		cl.TimeoutErr = &net.OpError{Op: "read", Net: "sim", Err: os.ErrDeadlineExceeded}
+		// real transports do not hand out the bare sentinel: sockets wrap it in *net.OpError, files in *fs.PathError, and
+		// connection wrappers annotate with %w (such an error has no Timeout method of its own)
+		switch sc.TID % 3 {
+		case 0:
+			cl.TimeoutErr = &net.OpError{Op: "read", Net: "sim", Err: os.ErrDeadlineExceeded}
+		case 1:
+			cl.TimeoutErr = &fs.PathError{Op: "read", Path: "/dev/ttyS0", Err: os.ErrDeadlineExceeded}
+		default:
+			cl.TimeoutErr = fmt.Errorf("conn wrapper: %w", os.ErrDeadlineExceeded)
+		}
 	}
 
 	var hooks *recHooks
+	var installed modbus.ClientHooks
 	if sc.Hooks {
 		hooks = &recHooks{}
+		installed = hooks
+		if sc.ValueHooks {
+			// hooks implemented on a value type and installed by value (its zero value, as a stateless logger is)
+			valueHooksTarget = hooks
+			installed = valueHooks{}
+		}
 	}
 	var doer interface {
 		Do(context.Context, packet.Request) (packet.Response, error)
@@ -389,7 +407,7 @@ func RunC1(rc *RunCtx, sc *C1) *C1Outcome {
 			},
 		}
 		if hooks != nil {
-			conf.Hooks = hooks
+			conf.Hooks = installed
 		}
 		var c *modbus.Client
 		switch {
@@ -461,7 +479,7 @@ func RunC1(rc *RunCtx, sc *C1) *C1Outcome {
 		}
 		opts := []modbus.SerialClientOptionFunc{modbus.WithSerialReadTimeout(sc.ReadTimeout)}
 		if hooks != nil {
-			opts = append(opts, modbus.WithSerialHooks(hooks))
+			opts = append(opts, modbus.WithSerialHooks(installed))
 		} else if sc.NilHooksOption {
 			opts = append(opts, modbus.WithSerialHooks(nil)) // "no hooks" said explicitly
 		}
@@ -771,3 +789,12 @@ func trunc(b []byte, n int) []byte {
 
 // Full0 is the complete reply this scenario delivers when no fault truncates it.
 func (sc *C1) Full0() []byte { return sc.Reply }
+
+// valueHooks forwards to the run's recorder; it carries no state of its own, so its zero value is the value installed.
+type valueHooks struct{}
+
+var valueHooksTarget *recHooks
+
+func (valueHooks) BeforeWrite(b []byte)                   { valueHooksTarget.BeforeWrite(b) }
+func (valueHooks) AfterEachRead(b []byte, n int, e error) { valueHooksTarget.AfterEachRead(b, n, e) }
+func (valueHooks) BeforeParse(b []byte)                   { valueHooksTarget.BeforeParse(b) }
